@@ -1000,7 +1000,11 @@ func (s *Store) monitorLeaseAsPrimary(ctx context.Context, lease Lease) error {
 			return nil
 
 		case nodeID := <-lease.HandoffCh():
-			if err := s.processHandoff(ctx, nodeID, lease); err != nil {
+			if err := s.processHandoff(ctx, nodeID, lease); err == ErrLeaseExpired {
+				// The renewal inside the handoff told us the lease is gone so we
+				// must not keep acting as primary until the next periodic renewal.
+				return err
+			} else if err != nil {
 				log.Printf("%s: handoff unsuccessful, continuing as primary", FormatNodeID(s.id))
 				continue
 			}
